@@ -189,10 +189,15 @@ func LookupXpathFunction(
 var testedFunctionTable = make(map[string]bool)
 
 func markFunctionAsTested(name string) {
+	// Runs with validation on may be concurrent
+	mu.Lock()
+	defer mu.Unlock()
 	testedFunctionTable[name] = true
 }
 
 func CheckAllFunctionsWereTested() error {
+	mu.Lock()
+	defer mu.Unlock()
 	for name, _ := range xpathFunctionTable {
 		if _, ok := testedFunctionTable[name]; !ok {
 			return fmt.Errorf("Function '%s' has not been tested!", name)
